@@ -257,6 +257,7 @@ func Specs() []TypeSpec {
 			Cat: map[string]any{
 				"token_url": "{S}/token", "client_id": "cid", "client_secret": "csecret",
 				"scopes": []any{"s-cat"}, "cache_ttl": "100s",
+				"header": map[string]any{"name": "X-Cat-Token", "scheme": "Cat"},
 			},
 			Overrides: []map[string]any{
 				{"scopes": []any{"s-o1"}},
@@ -265,6 +266,8 @@ func Specs() []TypeSpec {
 				{"scopes": []any{"s-o2", "s-o3"}},
 				{"cache_ttl": "200s"},
 				{"header": map[string]any{"name": "X-Token", "scheme": "Foo"}},
+				// only the name is overridden: the scheme stays the catalogue's
+				{"header": map[string]any{"name": "X-Token"}},
 			},
 			Subjects: []string{"alice"},
 		},
